@@ -57,3 +57,23 @@ fn probe_acknack_decode() {
         core::mem::forget(r);
     }
 }
+
+// @check props=PROBE tier=quick
+// @desc participant fixture: construct + create publisher
+#[kani::proof]
+#[kani::unwind(20)]
+#[kani::stub(critical_section::acquire, super::support_cs::cs_acquire)]
+#[kani::stub(critical_section::release, super::support_cs::cs_release)]
+fn probe_participant() {
+    use super::support_participant as sp;
+    use crate::infrastructure::qos::QosKind;
+    let cap = sp::Capture::new();
+    let mut p = sp::participant(&cap, 0);
+    let rt = sp::VRuntime { now: crate::infrastructure::time::Time::new(1, 0) };
+    p.publisher_counter = kani::any();
+    kani::assume(p.publisher_counter < 200);
+    let h = p.create_user_defined_publisher(QosKind::Default, None, sp::mask_from_bits(0), &rt);
+    assert!(h.is_ok());
+    kani::cover!(p.publisher_counter == 17, "reach");
+    core::mem::forget(p);
+}
